@@ -23,7 +23,8 @@
    C03_stale_reachable need no extra hypothesis. *)
 From AV Require Import Base.Bytes Base.Outcome Hash.HashModel Tree.Heap Tree.Ops Tree.Script Tree.Inv Tree.Iter
   Tree.InvProofsTree Tree.InvProofsNav Tree.InvProofs Tree.StaleProofs Tree.IterProofs Tree.IterProofsFile
-  Tree.InvProofsDetFiles Tree.InvProofsDetFilesMain Tree.InvExamples.
+  Tree.InvProofsDetFiles Tree.InvProofsDetFilesMain Tree.InvProofsOp2 Tree.InvExamples.
+From AV Require Import Tree.Script2.
 Open Scope string_scope.
 Open Scope list_scope.
 Open Scope N_scope.
@@ -63,6 +64,18 @@ Theorem C03_reachable_core :
          (root_attrs : list (N * cdata)) (l : list op) (w' : world),
     Inv.run_ops T tab_el tab_en check_fn LATEST root_attrs l empty_world = Val w' -> Core w'.
 Proof. exact Core_reachable. Qed.
+
+(* the extended alphabet op2 (Tree/Script2.v): sort, duplicate, set_version, check_version_compatibility, serialize;
+   PARTIAL: pending_op2 = OpLoad (Tree/Load.v is not covered) *)
+Theorem C03_core_inv2_partial :
+  forall (T : tables) (tab_el tab_at tab_en : nametab) (check_fn : N -> list N -> res bool)
+         (float_parse : list N -> option N) (float_fmt : N -> list N)
+         (LATEST name_index name_definition_ref attr_schema_location : N) (root_attrs : list (N * cdata))
+         (o : op2) (w : world) (r : out value2) (w' : world),
+    pending_op2 o = false -> Core w ->
+    run_op2 T tab_el tab_at tab_en check_fn float_parse float_fmt LATEST name_index name_definition_ref
+            attr_schema_location root_attrs o w = Val (r, w') -> Core w'.
+Proof. exact Core_step2_partial. Qed.
 
 (* ---------- navigation ---------- *)
 Theorem C03_position :
